@@ -264,8 +264,22 @@ def _check(area, pid, tier, seed, t0, args):
         brc, blog = (0, '')
         if not args.no_build:
             brc, blog = lake_build(area.TARGETS + ['SmppVerif.Model.Driver'])
+        # thorough tier: the compiled property modules (and everything they import) are re-checked by leanchecker, the
+        # toolchain's independent re-checker of .olean files (kernel replay of every declaration)
+        recheck = None
+        if tier == 'thorough' and brc == 0 and not args.no_build:
+            try:
+                p = subprocess.run(['lake', 'env', 'leanchecker'] + list(area.TARGETS), cwd=LEAN, capture_output=True,
+                                   text=True, timeout=1500)
+                recheck = (p.returncode, (p.stdout + p.stderr)[-600:])
+            except (OSError, subprocess.TimeoutExpired) as e:
+                recheck = (None, repr(e))
     finally:
         lock.un()
+    res.notes.append('leanchecker: ' + ('not run (quick tier)' if recheck is None else
+                                        'ok' if recheck[0] == 0 else 'FAILED %s' % (recheck[1],)))
+    if recheck is not None and recheck[0] not in (0, None):
+        broken.append(('leanchecker', 'the independent re-check of the compiled modules failed: %s' % recheck[1]))
     axioms = parse_axioms(blog)
     build_ok = (brc == 0)
     if not build_ok:
